@@ -133,7 +133,9 @@ type srvRecCall struct {
 
 type srvRecBackend struct {
 	*ociregistry.Funcs
-	fail    bool
+	// writerSize is the size of the last writer handed out, when it was closed (-1: none closed)
+	writerSize int64
+	fail       bool
 	calls   []srvRecCall
 	opened  int
 	closed  int
@@ -168,6 +170,7 @@ func (w *srvRecWriter) Close() error {
 	if !w.done {
 		w.done = true
 		w.b.closed++
+		w.b.writerSize = w.n
 	}
 	return nil
 }
@@ -217,7 +220,7 @@ func (b *srvRecBackend) desc() (ociregistry.Descriptor, error) {
 }
 
 func newSrvRecBackend(fail bool) *srvRecBackend {
-	b := &srvRecBackend{fail: fail, content: []byte("0123456789")}
+	b := &srvRecBackend{fail: fail, content: []byte("0123456789"), writerSize: -1}
 	seqErr := func() ociregistry.Seq[string] {
 		if fail {
 			return ociregistry.ErrorSeq[string](ociregistry.ErrNameUnknown)
@@ -238,8 +241,13 @@ func newSrvRecBackend(fail bool) *srvRecBackend {
 			if o1 < 0 || o1 > n {
 				o1 = n
 			}
-			if o0 > o1 {
+			if o0 > o1 && o0 <= n {
 				return nil, fmt.Errorf("bad range")
+			}
+			if o0 > o1 {
+				// a lenient backend: a start beyond the end yields an empty reader describing the blob
+				// (the server then has to refuse the range itself, and still close what it was given)
+				o0, o1 = n, n
 			}
 			b.opened++
 			return &srvRecReader{Reader: bytes.NewReader(b.content[o0:o1]), b: b, desc: ociregistry.Descriptor{MediaType: "application/octet-stream", Digest: ociregistry.Digest(sha256Digest(b.content)), Size: n}}, nil
@@ -353,6 +361,7 @@ type served struct {
 	calls     []srvRecCall
 	opened    int
 	closed    int
+	wsize     int64
 	skipped   string
 	method    string
 	parsed    *ociverif.Request
@@ -418,6 +427,12 @@ func c06Serve(t []string) *served {
 			req.ContentLength = n
 			continue
 		}
+		if strings.EqualFold(k, "Transfer-Encoding") && v == "chunked" {
+			// a body of unknown length, as net/http presents a chunked request to a handler
+			req.ContentLength = -1
+			req.TransferEncoding = []string{"chunked"}
+			continue
+		}
 		req.Header.Add(k, v)
 	}
 	if method == "GET" || method == "HEAD" || method == "DELETE" {
@@ -464,7 +479,7 @@ func c06Serve(t []string) *served {
 	s.header = w.Header()
 	s.body = w.Body.Bytes()
 	if rec != nil {
-		s.calls, s.opened, s.closed = rec.calls, rec.opened, rec.closed
+		s.calls, s.opened, s.closed, s.wsize = rec.calls, rec.opened, rec.closed, rec.writerSize
 	}
 	return s
 }
@@ -540,6 +555,8 @@ func c06Targets(rng *RNG) (method, target string, hdrs []string, body string) {
 		}
 		if rng.Chance(1, 6) {
 			hdrs = append(hdrs, "Content-Length", pick(rng, []string{"0", "1", "10", "5"}))
+		} else if rng.Chance(1, 4) {
+			hdrs = append(hdrs, "Transfer-Encoding", "chunked")
 		}
 	default:
 		// unstructured
@@ -766,6 +783,16 @@ func (*c06) Oracle(c Case, impl []string) []Failure {
 		case ociverif.ReqBlobUploadChunk, ociverif.ReqBlobUploadInfo:
 			need("Location")
 			need("Range")
+			if s.wsize >= 0 && (t[1] == "rec" || t[1] == "recfail") {
+				// the Range header reports what the upload holds, not what the request's headers claimed
+				want := "0-0"
+				if s.wsize > 0 {
+					want = fmt.Sprintf("0-%d", s.wsize-1)
+				}
+				if got := h.Get("Range"); got != want {
+					fail("srv-upload-range:"+kindNames[s.parsed.Kind], "server_success_headers", "Range: "+want+" (the backend writer holds "+strconv.FormatInt(s.wsize, 10)+" bytes)", "Range: "+got)
+				}
+			}
 		case ociverif.ReqTagsList, ociverif.ReqCatalogList, ociverif.ReqReferrersList:
 			clen()
 		}
